@@ -250,6 +250,27 @@ SyncStep ==
           /\ pviol' = IF "fs1" \in DOMAIN Ev THEN <<>> ELSE C12_Frame("Sync", Ev.state)
           /\ afterfix' = FALSE
 
+(* a sync that was killed (SIGKILL at some system call): the content copy that loads is the old state, the
+   state saved before the stripes are processed, or the final state; data disks are never touched (C07) *)
+SyncKilledStep ==
+    /\ IsEvent("SyncKilled")
+    /\ LET a == Ev.args
+           r == SyncResult(C, fs, fs, par, a.now, a.opts, SrcsOf(a))
+           L0 == ClearPast(C)
+           presave == Normalize(Scan(L0, fs, SrcsOf(a), TRUE))
+           newc == LoggedC(Ev.state)
+           okC == newc \in {C, presave, r.C}
+       IN /\ Follow(Ev.state, par)
+          /\ diag' = IF okC THEN <<>> ELSE <<"SyncKilled", l, DiffC(presave, newc)>>
+          /\ clean' = FALSE
+          /\ ghost' = IF newc = C THEN ghost
+                      ELSE [d \in D |-> [n \in DOMAIN newc.cf[d] |->
+                              IF n \in Fresh(L0, fs, d) /\ n \in DOMAIN fs[d] THEN fs[d][n].b
+                              ELSE IF n \in DOMAIN ghost[d] THEN ghost[d][n] ELSE <<>>]]
+          /\ pviol' = IF Ev.state.sha.f # sha.f THEN <<<<"C07", "killed-sync-changed-data", <<>>>>>> ELSE <<>>
+          /\ afterfix' = FALSE
+          /\ UNCHANGED <<snap, dmg>>
+
 SelOf(a) == [d \in D |-> ToSet(a.sel[d])]
 
 CheckStep ==
@@ -264,7 +285,9 @@ CheckStep ==
                       (IF ~ParityInvalid(C) /\ NoDifference(C, fs) /\ \A lv \in PresentOf(a) : Len(par[lv]) >= AllocatedMax(C)
                        THEN C04_Check(C, fs, par, a, Ev.out) ELSE <<>>) \o
                       (IF afterfix /\ Ev.out.rc # 0 THEN <<<<"C01", "check-after-fix-finds-errors", Ev.out>>>> ELSE <<>>)
-          /\ UNCHANGED <<clean, snap, dmg, ghost, afterfix>>
+          \* a full check without any error ends a damage episode
+          /\ dmg' = (dmg /\ ~(~a.audit /\ Ev.out.rc = 0 /\ PresentOf(a) = Levels))
+          /\ UNCHANGED <<clean, snap, ghost, afterfix>>
 
 FixStep ==
     /\ IsEvent("Fix")
@@ -278,7 +301,8 @@ FixStep ==
                   /\ r.out.recovered = PairSet(Ev.out.recovered)
            c01 == clean /\ WithinBounds(C, fs, par)
        IN /\ Follow(Ev.state, r.par)
-          /\ diag' = IF okF /\ okP /\ okC /\ okO THEN <<>>
+          /\ diag' = IF "expect_c01" \in DOMAIN a /\ ~c01 THEN <<"C01-precondition-not-met", l, [clean |-> clean, within |-> WithinBounds(C, fs, par)]>>
+                     ELSE IF okF /\ okP /\ okC /\ okO THEN <<>>
                      ELSE <<"Fix", l, [okF |-> okF, okP |-> okP, okC |-> okC, okO |-> okO],
                             IF ~okF THEN r.fs ELSE <<>>, IF ~okP THEN r.par ELSE <<>>, r.out, Ev.out>>
           /\ pviol' = C12_Frame("Fix", Ev.state) \o C05_Fix(C, ghost, fs, Ev.state, Ev.out, SelOf(a)) \o
@@ -326,7 +350,7 @@ ResetStep ==
     /\ pviol' = <<>>
     /\ afterfix' = FALSE
 
-Next == EnvStep \/ SyncStep \/ CheckStep \/ FixStep \/ ScrubStep \/ DiffStep \/ ResetStep
+Next == EnvStep \/ SyncStep \/ SyncKilledStep \/ CheckStep \/ FixStep \/ ScrubStep \/ DiffStep \/ ResetStep
 Spec == Init /\ [][Next]_vars
 
 (* ---- what TLC checks ---- *)
